@@ -152,7 +152,15 @@ theorem setStep_inv (H : Bytes → Bytes) (C : Cls F) (hA : AliasClass C) (k : N
   | 1, _ =>
     refine ⟨fun hn => by simp at hn, fun ha => ?_⟩
     simp [ha]
-  | k + 2, _ =>
+  | 2, _ =>
+    simp only
+    split
+    · exact setRawStep_inv H C hA _ s
+    · exact h
+  | 3, _ =>
+    refine ⟨fun _ d hd => by simp at hd, fun ha => ?_⟩
+    simp [ha]
+  | k + 4, _ =>
     simp only
     split
     · exact setRawStep_inv H C hA _ s
